@@ -775,6 +775,15 @@ class TextXVisitor(RRELVisitor):
         if self.metamodel.user_classes_provider is not None:
             cls = self.metamodel.user_classes_provider(rule_name)
             if cls is not None:
+                if cls.__name__ != rule_name:
+                    line, col = self.grammar_parser.pos_to_linecol(node.position)
+                    raise TextXSemanticError(
+                        f'The class "{cls.__name__}" provided for the rule '
+                        f'"{rule_name}" must have the name of the rule.',
+                        line,
+                        col,
+                        filename=self.metamodel.file_name,
+                    )
                 self.metamodel.user_classes[rule_name] = cls
         else:
             cls = self.metamodel.user_classes.get(rule_name)
